@@ -22,6 +22,28 @@ _REDUCESUM_INT64_WORK_DTYPES: Final[frozenset[np.dtype[Any]]] = frozenset(
         np.dtype(np.uint8),
         np.dtype(np.uint16),
         np.dtype(np.uint32),
+        # ONNX ReduceSum has no int8 / int16 variant either.
+        np.dtype(np.int8),
+        np.dtype(np.int16),
+    }
+)
+
+# ONNX ReduceProd accepts (u)int32 / (u)int64 only.  The product is taken in int64 and
+# cast back: the Cast wraps, so the result is the product modulo 2**bits, as in XLA.
+_REDUCEPROD_INT64_WORK_DTYPES: Final[frozenset[np.dtype[Any]]] = frozenset(
+    {
+        np.dtype(np.int8),
+        np.dtype(np.int16),
+        np.dtype(np.uint8),
+        np.dtype(np.uint16),
+    }
+)
+
+# ONNX ReduceMax / ReduceMin have no 16-bit integer variant; int32 holds every value.
+_REDUCEMINMAX_INT32_WORK_DTYPES: Final[frozenset[np.dtype[Any]]] = frozenset(
+    {
+        np.dtype(np.int16),
+        np.dtype(np.uint16),
     }
 )
 
@@ -95,6 +117,16 @@ def lower_reduction(
     if op_type == "ReduceSum" and effective_dtype in _REDUCESUM_INT64_WORK_DTYPES:
         work_dtype = np.dtype(np.int64)
         needs_result_cast = True
+    elif op_type == "ReduceProd" and effective_dtype in _REDUCEPROD_INT64_WORK_DTYPES:
+        work_dtype = np.dtype(np.int64)
+        needs_result_cast = True
+    elif (
+        op_type in ("ReduceMax", "ReduceMin")
+        and effective_dtype in _REDUCEMINMAX_INT32_WORK_DTYPES
+    ):
+        work_dtype = np.dtype(np.int32)
+        needs_result_cast = True
+    internal_work_dtype = work_dtype if needs_result_cast else None
 
     operand_val = ctx.get_value_for_var(
         operand_var, name_hint=ctx.fresh_name(f"{op_type.lower()}_in")
@@ -182,7 +214,13 @@ def lower_reduction(
         )
 
     if needs_result_cast:
-        result.type = ir.TensorType(ir.DataType.INT64)
+        result.type = ir.TensorType(
+            _dtype_to_ir(
+                np.dtype(internal_work_dtype), ctx.builder.enable_double_precision
+            )
+            if internal_work_dtype is not None
+            else ir.DataType.INT64
+        )
         _stamp_type_and_shape(result, out_shape)
         _ensure_value_metadata(ctx, result)
 
